@@ -1,5 +1,5 @@
 """Build steps, case execution (model + implementation), trace comparison."""
-import hashlib, json, os, random, subprocess, sys, time, shutil
+import hashlib, json, os, random, re, subprocess, sys, time, shutil
 from concurrent.futures import ThreadPoolExecutor
 
 ROOT = os.path.dirname(os.path.dirname(os.path.abspath(__file__)))
@@ -16,6 +16,12 @@ class BuildBroken(Exception):
     def __init__(self, what, output):
         super().__init__(what)
         self.what, self.output = what, output
+
+class ObligationBroken(Exception):
+    """A theorem that is re-checked against a model regenerated from /repo no longer holds."""
+    def __init__(self, pid, output):
+        super().__init__(pid)
+        self.pid, self.output = pid, output
 
 class ToolBroken(Exception):
     """A build step that depends only on /verif failed (my bug, not a violation)."""
@@ -49,6 +55,11 @@ def tree_hash(paths, exts):
 # ----------------------------------------------------------------------------------
 # Coq
 # ----------------------------------------------------------------------------------
+# property files whose proof is re-checked against a table regenerated from /repo: a failure
+# there is a broken proof obligation of that property, not a broken framework
+REGENERATED_DEPENDENTS = ["AV/Props/C15.v", "AV/Props/C16.v", "AV/Props/C19.v"]
+LAST_COQ = {"failed": [], "output": ""}
+
 def ensure_coq(clean=False):
     """make in /verif/coq (incremental). Returns wall seconds."""
     t0 = time.time()
@@ -71,8 +82,12 @@ def ensure_coq(clean=False):
         rc, out = sh("coq_makefile -f _CoqProject -o Makefile", cwd=COQ)
         if rc != 0:
             raise ToolBroken("coq_makefile failed:\n" + out)
-    rc, out = sh("timeout 3000 make -j%d 2>&1" % NPROC, cwd=COQ)
-    if rc != 0:
+    rc, out = sh("timeout 3000 make -k -j%d 2>&1" % NPROC, cwd=COQ)
+    failed = sorted(set(re.findall(r'File "\./(AV/[^"]+\.v)"', out))) if rc != 0 else []
+    LAST_COQ["failed"] = failed
+    LAST_COQ["output"] = out[-6000:]
+    hard = [f for f in failed if f not in REGENERATED_DEPENDENTS]
+    if rc != 0 and (hard or not failed):
         raise ToolBroken("coq build failed:\n" + out[-4000:])
     return time.time() - t0
 
@@ -83,6 +98,8 @@ def props_report(pid):
         return None
     rc, out = sh("timeout 600 coqc -Q AV AV AV/Props/%s.v" % pid, cwd=COQ)
     if rc != 0:
+        if "AV/Props/%s.v" % pid in REGENERATED_DEPENDENTS:
+            raise ObligationBroken(pid, out[-3000:])
         raise ToolBroken("property file %s does not compile:\n%s" % (pid, out[-3000:]))
     return out
 
